@@ -69,6 +69,19 @@ pub proof fn thm_read_request_guards(pre: HttpConn, post: HttpConn, r: Result<Re
 {
 }
 
+
+// C20: every 5xx response that is sent carries `connection: close` (write_response sends a 5xx with close = true,
+// and the serialisation with close = true has the field right after the status line / content-type), and the
+// write side is shut down after it
+pub proof fn thm_5xx_marked_close(pre: HttpConn, post: HttpConn, resp: Response)
+    requires pre.write_state == WriteState::Response, conn_write_response_post(pre, post, resp, Ok(())), is_5xx_code(resp.code),
+    ensures exists|a: Seq<u8>, z: Seq<u8>| wire(post) == wire(pre) + #[trigger] (a + l_close() + z),
+        post.write_state == WriteState::Shutdown,
+{
+    lemma_close_marked(resp);
+    let (a, z) = choose|a: Seq<u8>, z: Seq<u8>| #[trigger] (a + l_close() + z) == ser(resp, true);
+    assert(wire(post) == wire(pre) + (a + l_close() + z));
+}
 // vacuity canary: exercise the assumed stream / chain / serialiser / request-reader contracts -- must FAIL
 fn canary_conn(c: &mut HttpConn, resp: &Response, addr: SocketAddr)
     requires old(c).buf.wf()
